@@ -22,7 +22,9 @@ func Props() []*harness.Prop {
 	return []*harness.Prop{
 		{ID: "C12", Gen: c12Gen, Exec: c12Exec},
 		{ID: "C13", Gen: c13Gen, Exec: c13Exec},
+		{ID: "C14", Gen: c14Gen, Exec: c14Exec},
 		{ID: "C15", Gen: c15Gen, Exec: c15Exec},
+		{ID: "C31", Gen: c31Gen, Exec: c31Exec},
 	}
 }
 
